@@ -82,6 +82,22 @@ def parse_out(path, task):
     return open_case
 
 
+def rerun_single(task, prop, tier, seed, open_case, env, timeout):
+    """Re-runs one case alone. Returns True if it does not finish within the timeout either (a hang)."""
+    cfgs = [x for x in task.run.get("_configs", []) if x]
+    if open_case[0] >= len(cfgs):
+        return True
+    out = os.path.join(RUNDIR, f"{task.label}.single.jsonl")
+    if os.path.exists(out):
+        os.unlink(out)
+    args = base_args(task.run, prop, tier, seed) + ["--config", cfgs[open_case[0]], "--case", str(open_case[1]), "--out", out]
+    try:
+        subprocess.run([task.exe] + args, env=env, cwd=RUNDIR, stdout=subprocess.DEVNULL, stderr=subprocess.DEVNULL, timeout=timeout)
+        return False
+    except subprocess.TimeoutExpired:
+        return True
+
+
 def run_task(task, prop, tier, seed, timeout):
     """Runs one worker (restarting it after a crash / hang at the next case)."""
     t0 = time.time()
@@ -93,7 +109,6 @@ def run_task(task, prop, tier, seed, timeout):
     env.update(task.run.get("env", {}))
     resume = None
     attempt = 0
-    hang_retries = {}
     while True:
         attempt += 1
         out = os.path.join(RUNDIR, f"{task.label}.{attempt}.jsonl")
@@ -132,17 +147,18 @@ def run_task(task, prop, tier, seed, timeout):
             task.inconclusive.append(f"{task.label}: worker exited rc={rc} timed_out={timed_out} outside any case: {tail[-500:]}")
             break
         if timed_out:
-            # a case that makes no progress: re-run once (same budget) before calling it a hang
-            n = hang_retries.get(open_case, 0)
-            hang_retries[open_case] = n + 1
-            if n == 0:
-                resume = (open_case[0], open_case[1] - 1) if open_case[1] > 0 else (open_case[0] - 1, 1 << 60)
-                log(f"[run] {task.label}: watchdog expired in case {open_case}; re-running it once")
-                continue
-            task.crashes.append(dict(kind="hang", cfg=open_case[0], case=open_case[1], rc=rc, stderr=tail))
+            # a case that makes no progress: re-run that case alone once (a single case normally takes seconds) before
+            # calling it a hang; a wall-clock expiry alone is never a verdict
+            log(f"[run] {task.label}: watchdog expired in case {open_case}; re-running that case alone")
+            if task.corpus_spec or rerun_single(task, prop, tier, seed, open_case, env, max(120, timeout // 4)):
+                task.crashes.append(dict(kind="hang", cfg=open_case[0], case=open_case[1], rc=rc, stderr=tail))
+            else:
+                task.inconclusive.append(f"{task.label}: watchdog expired in case {open_case} but the case finished when re-run alone (machine overloaded?)")
         else:
             kind = "crash"
             task.crashes.append(dict(kind=kind, cfg=open_case[0], case=open_case[1], rc=rc, stderr=tail))
+        if sum(1 for x in task.crashes if x["kind"] == "hang") >= 2:
+            break  # two confirmed hangs in one shard are witness enough; do not spend hours on the rest of the shard
         if task.corpus_spec or attempt > 40:
             if attempt > 40:
                 task.inconclusive.append(f"{task.label}: more than 40 crashes, giving up on this shard")
@@ -259,7 +275,7 @@ def run_check(prop, tier, seed):
             for ci, (spec, config) in enumerate(corpus_files(r["engine"], prop)):
                 if config in r["_configs"]:
                     tasks.append(Task(r, 0, 1, exe, f"{prop}.{tier}.r{ri}.{r['engine']}.{r['flavour']}.corpus{ci}", corpus_spec=spec))
-    timeout = plan.get("timeout", {}).get(tier, 1800 if tier == "quick" else 7200)
+    timeout = plan.get("timeout", {}).get(tier, 900 if tier == "quick" else 5400)
     log(f"[run] {prop} {tier}: {len(runs)} engine runs, {len(tasks)} workers, seed {seed}")
     with ThreadPoolExecutor(build.JOBS) as ex:
         list(ex.map(lambda t: run_task(t, prop, tier, seed, timeout), tasks))
